@@ -966,13 +966,15 @@ func syncFiltered(c *Ctx) error {
 // metadata-only transfers (C19)
 
 type metaInput struct {
-	Src      model.Tree `json:"src"`
-	Dst      model.Tree `json:"dst"`
-	Selected []string   `json:"selected"`
-	CapS     int        `json:"capS"`
-	CapR     int        `json:"capR"`
-	Origin   string     `json:"origin"`
-	Puppet   bool       `json:"puppet"`
+	Src            model.Tree `json:"src"`
+	Dst            model.Tree `json:"dst"`
+	Selected       []string   `json:"selected"`
+	CapS           int        `json:"capS"`
+	CapR           int        `json:"capR"`
+	Origin         string     `json:"origin"`
+	Puppet         bool       `json:"puppet"`
+	Merge          bool       `json:"merge,omitempty"`
+	OutsideListing string     `json:"outsideListing,omitempty"` // "" | live | dangling: what the destination symlink named like the listing points at
 }
 
 const listingName = ".fsutil-metadata"
@@ -1034,7 +1036,18 @@ func runMeta(c *Ctx, caseNo int, in metaInput) ([]vt.Ev, *SyncResult, error) {
 		sel[p] = true
 		selP = append(selP, vt.P(p))
 	}
-	o := SyncOpts{Mode: "dirty", Differ: "metadata", CapS2R: in.CapS, CapR2S: in.CapR,
+	mode := "dirty"
+	if in.Merge {
+		mode = "merge"
+	}
+	// a file next to the destination that a symlink named like the listing may point at
+	outside := filepath.Join(base, "outside-listing")
+	if in.OutsideListing == "live" {
+		if err := os.WriteFile(outside, []byte("precious"), 0600); err != nil {
+			return nil, nil, err
+		}
+	}
+	o := SyncOpts{Mode: mode, Differ: "metadata", CapS2R: in.CapS, CapR2S: in.CapR,
 		MetadataOnly: func(p string, st *types.Stat) bool { return sel[filepath.ToSlash(p)] },
 		Extra:        vt.Ev{"input": vt.Opaque(in), "origin": in.Origin, "selected": selP}}
 	if in.Puppet {
@@ -1056,6 +1069,13 @@ func runMeta(c *Ctx, caseNo int, in metaInput) ([]vt.Ev, *SyncResult, error) {
 	present, ok, recs := decodeListing(filepath.Join(dst, listingName))
 	end := res.Events[len(res.Events)-1]
 	end["listing"] = vt.Ev{"present": present, "framingOK": ok, "recs": recs}
+	touched := false
+	if b, err := os.ReadFile(outside); in.OutsideListing == "live" {
+		touched = err != nil || string(b) != "precious"
+	} else {
+		touched = err == nil
+	}
+	end["listingOutsideTouched"] = touched
 	return res.Events, res, nil
 }
 
@@ -1081,6 +1101,40 @@ func syncMeta(c *Ctx) error {
 		n = 3000
 	}
 	c.Stats.Rule = "one case = one metadata-only transfer (source tree, selector table, prior destination); non-trivial = some regular file is selected and some is not; distinct by (tree, selector, destination)"
+	// boundary shapes: nothing announced at all, only the listing's own name announced, stale / symlinked listing in the
+	// destination (pointing at a file next to the destination, live or dangling), with and without merge mode
+	{
+		mkf := func(p string) model.Entry { e := newFile(c.Rand, genOpts{}); e.Path = p; return e }
+		small := model.Tree{{Path: "d", Type: "dir", Perm: 0755, Mtime: uniqueMtime()}, mkf("d/x"), mkf("f")}
+		staleFile := model.Tree{{Path: listingName, Type: "file", Perm: 0644, Mtime: uniqueMtime(), Data: []byte("stale listing"), Size: 13}}
+		linkOut := model.Tree{{Path: listingName, Type: "symlink", Perm: 0777, Link: "../outside-listing", Mtime: uniqueMtime()}}
+		var shapes []metaInput
+		for _, merge := range []bool{false, true} {
+			for _, src := range []model.Tree{nil, {mkf(listingName)}, small} {
+				var sel []string
+				if len(src) == 3 {
+					sel = []string{"f"}
+				}
+				shapes = append(shapes,
+					metaInput{Src: src, Selected: sel, Merge: merge, Origin: "boundary/emptyDst"},
+					metaInput{Src: src, Selected: sel, Dst: staleFile, Merge: merge, Origin: "boundary/staleListing"},
+					metaInput{Src: src, Selected: sel, Dst: linkOut, Merge: merge, OutsideListing: "live", Origin: "boundary/listingIsLinkToOutsideFile"},
+					metaInput{Src: src, Selected: sel, Dst: linkOut, Merge: merge, OutsideListing: "dangling", Origin: "boundary/listingIsDanglingLinkToOutside"})
+			}
+		}
+		for _, in := range shapes {
+			in.CapS, in.CapR = 4, 4
+			evs, _, err := runMeta(c, c.NextCase(), in)
+			if err != nil {
+				return err
+			}
+			for _, e := range evs {
+				c.Out.Emit(e)
+			}
+			c.Stats.Case(vt.Opaque(in), true)
+			c.Stats.Count("origin:"+in.Origin, 1)
+		}
+	}
 	o := genOpts{MaxEntries: 25, Special: true, Xattrs: true, Links: true, BigFiles: false}
 	for i := 0; i < n; i++ {
 		t := RandomTree(c.Rand, o)
